@@ -6,6 +6,7 @@ import (
 	"fmt"
 	"math"
 	"math/big"
+	"sort"
 	"strings"
 
 	nm "verif/ref/nummodel"
@@ -101,7 +102,7 @@ func literalForms() []litForm {
 		"1_0", "1_000.5_5", "0x1_0", "0b1_1", "1e1_0"} {
 		res = append(res, litForm{t, sn(t)})
 	}
-	res = append(res, litForm{"017", 15}, litForm{"08", 8}, litForm{"09.5", 9.5}, litForm{"00", 0}, litForm{"0777777777777777777777", sn("0o777777777777777777777")}, litForm{"01777777777777777777777", sn("0o1777777777777777777777")})
+	res = append(res, litForm{"017", 15}, litForm{"00", 0}, litForm{"0777777777777777777777", sn("0o777777777777777777777")}, litForm{"01777777777777777777777", sn("0o1777777777777777777777")})
 	return res
 }
 
@@ -170,7 +171,7 @@ func judgeLiteralForm(w *worker, lf litForm) (fs [][2]string) {
 			if strings.Contains(lf.text, "_") {
 				continue // numeric separators not supported by the parser: a missing feature, not a conversion defect
 			}
-			fs = append(fs, [2]string{"value|src literal|throws", fmt.Sprintf("numeric literal %s is rejected: %s", lf.text, excName(w, err))})
+			fs = append(fs, [2]string{fmt.Sprintf("value|src literal|%s|rejected", litShape(lf.text)), fmt.Sprintf("numeric literal %s is rejected: %s", lf.text, excName(w, err))})
 			continue
 		}
 		k, m := classify(v)
@@ -248,20 +249,64 @@ func runLiterals(ex *explorer) {
 	ex.r.Eval(int64(2 * len(forms)))
 	ex.r.NontrivialN(int64(2 * len(forms)))
 	ex.mergeWorkerFails(w0)
-	// operations with literal operands
-	var lits []int
+	// operations with literal operands: quick: partner-pool scalars and strings x themselves, plus every scalar x
+	// a few partners; thorough: every literal-capable leaf x every scalar / core string
+	var lits, small []int
 	for i, l := range ex.u.leaves {
-		if l.js != "" && (l.kind != "str" || l.core || ex.r.Thorough()) {
+		if l.js == "" {
+			continue
+		}
+		if l.kind != "str" || l.core || ex.r.Thorough() {
 			lits = append(lits, i)
 		}
+		if l.core {
+			small = append(small, i)
+		}
 	}
+	if ex.r.Thorough() {
+		small = nil
+		for _, i := range lits {
+			if l := ex.u.leaves[i]; l.kind != "str" || l.core {
+				small = append(small, i)
+			}
+		}
+	}
+	few := []int{leafByName["num:0"], leafByName["num:-0"], leafByName["num:1"], leafByName["num:-1"], leafByName["num:0.5"], leafByName["num:32"], leafByName["num:9007199254740992"], leafByName["num:NaN"]}
 	var cases []litCase
+	pairs := map[[2]int]bool{}
+	addPair := func(a, b int) {
+		if !pairs[[2]int{a, b}] {
+			pairs[[2]int{a, b}] = true
+		}
+	}
+	for _, a := range small {
+		for _, b := range small {
+			addPair(a, b)
+		}
+	}
+	for _, a := range lits {
+		for _, b := range few {
+			addPair(a, b)
+			addPair(b, a)
+		}
+		if ex.r.Thorough() {
+			for _, b := range small {
+				addPair(a, b)
+				addPair(b, a)
+			}
+		}
+	}
+	var plist [][2]int
+	for pr := range pairs {
+		plist = append(plist, pr)
+	}
+	sort.Slice(plist, func(i, j int) bool {
+		return plist[i][0] < plist[j][0] || (plist[i][0] == plist[j][0] && plist[i][1] < plist[j][1])
+	})
 	for _, op := range ex.u.ops {
 		if op.Fam == "binary" {
-			for _, a := range lits {
-				for _, b := range lits {
-					cases = append(cases, litCase{op, "expr", a, b}, litCase{op, "assign", a, b})
-				}
+			for _, pr := range plist {
+				cases = append(cases, litCase{op, "expr", pr[0], pr[1]}, litCase{op, "assign", pr[0], pr[1]})
 			}
 		}
 		if op.Fam == "unary" {
@@ -295,7 +340,7 @@ func runLiterals(ex *explorer) {
 		w.evals = 0
 		ex.mergeWorkerFails(w)
 	}
-	ex.bounds["source literals"] = fmt.Sprintf("%d numeric literal spellings (sloppy+strict); %d compiled programs: every binary operator (expression and compound-assignment form) and unary operator over %d literal operands, complete=%v", len(forms), len(cases), len(lits), ok)
+	ex.bounds["source literals"] = fmt.Sprintf("%d numeric literal spellings (sloppy+strict); %d compiled programs: every binary operator (expression and compound-assignment form) over %d operand pairs and every unary operator over %d literal operands, complete=%v", len(forms), len(cases), len(plist), len(lits), ok)
 	ex.flushFails("literal")
 }
 
